@@ -1293,7 +1293,7 @@ pub fn run(ctx: &Ctx) -> Outcome {
     // bounds: (pruned tree depth, unpruned validation depth).  Measured: quick ~7 s / 36 k executions; thorough
     // ~6 min / 1.6 M executions on 16 cores (depth 6 costs 2 M more executions, all of them in states kept
     // alive by stuffing zero bytes in front of frames, and was dropped)
-    let (depth, unpruned_depth) = if ctx.quick() { (4, 2) } else { (5, 3) };
+    let (depth, unpruned_depth) = if ctx.quick() { (4, 2) } else if ctx.tier == vlib::report::Tier::Thorough { (7, 3) } else { (5, 3) };
     let mut bound_parts = vec![];
     let mut sequences_covered: u64 = 0;
     // ---- part 1
